@@ -1,7 +1,7 @@
 """C14 - NaN-skipping operations equal the plain operation on the data without NaNs."""
 from ..runner import Prop, Case
 from ..core import zlist
-from ..layouts import zoo
+from ..layouts import zoo, lay1
 from ..nd import factorizations, ravel, prod, lane_positions, result_shape
 from .c04 import tok_key, key_of, NANK
 from .c02 import pivot_tokens, parse_log
@@ -106,6 +106,15 @@ class C14(Prop):
             axis = rng.below(nd)
             q = rng.choice([0.0, 1.0, 0.5, 0.25, 0.75, 1.0 / 3.0, 0.9, 0.49999999999999994, rng.below(1000) / 1000.0])
             yield mk_qsk_case(et, rng.below(5), shape, vals, q, rng.choice(zoo(shape, rng, 4)), axis, ("P", rng.below(3)))
+        # lanes of word-size length (and neighbours): a missing value in front of a present one
+        for n in (31, 32, 33, 63, 64, 65, 128):
+            for et in ("f64", "oi32"):
+                vals = [None if rng.chance(1, 4) else (rng.range(-6, 6) if et == "oi32" else rng.range(-6, 6) * 0.25) for _ in range(n)]
+                vals[0], vals[-1] = None, 2
+                yield mk_qsk_case(et, rng.below(5), [n], vals, rng.choice([0.0, 0.5, 1.0]), lay1(n, rng.choice([1, -1, 2])), 0, ("P", rng.below(3)))
+            vals = [None if rng.chance(1, 4) else rng.range(1, 9) for _ in range(n)]
+            vals[0], vals[-1] = None, 3
+            yield mk_case("skipnan_axis", rng.choice(ETS), [n], vals, lay1(n, rng.choice([1, -1, 2])), 0)
         for _ in range(150 if tier == "quick" else 8000):
             nd = rng.range(1, 3)
             shape = [rng.range(1, 5) for _ in range(nd)]
